@@ -398,7 +398,7 @@ func (d *gDefs) forks(p *gPhase) bool {
 
 // ---------------------------------------------------------------- tree generator (shared by C19 and C20)
 
-var gLetters = []string{"A", "B", "C", "D", "E", "F", "G", "H", "I", "J", "K", "L"}
+var gLetters = []string{"A", "B", "C", "D", "E", "F", "G", "H", "I", "J", "K", "L", "M", "N", "O", "P"}
 
 func genGTree(t *rapid.T, maxBlocks int) *gTree {
 	n := rapid.IntRange(1, maxBlocks).Draw(t, "blocks")
@@ -420,3 +420,182 @@ func genGTree(t *rapid.T, maxBlocks int) *gTree {
 	return newGTree(parent, perm, off)
 }
 
+
+// ---------------------------------------------------------------- three-way split shapes (C19)
+
+// gSplit: a trunk root..H, a main fork H <- P.. (1-2 blocks) ending in 2-3 leaves (the first optionally one block
+// longer) and 1-2 side forks of 1-2 blocks hanging off H (sometimes off a trunk block below H). Votes on the leaves, the
+// side forks and H put >= 3 vote-nodes under one graph node, none of which needs to reach the threshold alone while the
+// shared prefix of the main fork does: the GHOST is then a merge point found by accumulating several nodes per block.
+type gSplit struct {
+	tr     *gTree
+	h      int
+	trunk  []int   // root..H
+	prefix []int   // main fork blocks between H and the leaves
+	leaves []int   // leaves of the main fork (and the extension of the first, if any)
+	side   [][]int // side fork chains
+}
+
+func genSplitTree(t *rapid.T) *gSplit {
+	sp := &gSplit{}
+	parent := []int{-1}
+	sp.trunk = []int{0}
+	for i := rapid.IntRange(0, 2).Draw(t, "trunkAboveRoot"); i > 0; i-- {
+		parent = append(parent, len(parent)-1)
+		sp.trunk = append(sp.trunk, len(parent)-1)
+	}
+	sp.h = len(parent) - 1
+	at := sp.h
+	for i := rapid.IntRange(1, 2).Draw(t, "prefixLen"); i > 0; i-- {
+		parent = append(parent, at)
+		at = len(parent) - 1
+		sp.prefix = append(sp.prefix, at)
+	}
+	nl := rapid.IntRange(2, 3).Draw(t, "leaves")
+	for k := 0; k < nl; k++ {
+		parent = append(parent, at)
+		sp.leaves = append(sp.leaves, len(parent)-1)
+	}
+	if rapid.IntRange(0, 3).Draw(t, "longerLeaf") == 0 {
+		parent = append(parent, sp.leaves[0])
+		sp.leaves = append(sp.leaves, len(parent)-1)
+	}
+	for k := rapid.IntRange(1, 2).Draw(t, "sideForks"); k > 0; k-- {
+		from := sp.h
+		if sp.h > 0 && rapid.IntRange(0, 3).Draw(t, "sideFromLowerTrunk") == 0 {
+			from = rapid.IntRange(0, sp.h-1).Draw(t, "sideFrom")
+		}
+		var chain []int
+		for i := rapid.IntRange(1, 2).Draw(t, "sideLen"); i > 0; i-- {
+			parent = append(parent, from)
+			from = len(parent) - 1
+			chain = append(chain, from)
+		}
+		sp.side = append(sp.side, chain)
+	}
+	// hashes: a random permutation, so that the side fork sorts before and after the main fork equally often
+	labels := rapid.Permutation(gLetters[:len(parent)]).Draw(t, "hashes")
+	off := rapid.SampledFrom([]uint64{0, 1, 7, 1000, 1<<31 - 2, 1<<32 - 12}).Draw(t, "offset")
+	sp.tr = newGTree(parent, labels, off)
+	return sp
+}
+
+// genSplitVotes: (voter, block) pairs over a split tree: most weight on the leaves of the main fork (spread, so that only
+// the shared prefix reaches the threshold), some on the side forks, usually one voter on H (the round base), repetitions
+// and equivocations within f.
+func genSplitVotes(t *rapid.T, sp *gSplit, w []uint64) [][2]int {
+	var total uint64
+	for _, x := range w {
+		total += x
+	}
+	f := (total - 1) / 3
+	prof := rapid.SampledFrom([][4]int{{7, 2, 1, 0}, {6, 2, 1, 1}, {5, 3, 1, 1}, {8, 1, 1, 0}, {6, 3, 0, 1}}).Draw(t, "profile")
+	var cats []int
+	for c, k := range prof {
+		for i := 0; i < k; i++ {
+			cats = append(cats, c)
+		}
+	}
+	pickIn := func(cat int) int {
+		switch cat {
+		case 0:
+			if rapid.IntRange(0, 9).Draw(t, "onPrefix") == 0 {
+				return sp.prefix[rapid.IntRange(0, len(sp.prefix)-1).Draw(t, "prefixBlock")]
+			}
+			return sp.leaves[rapid.IntRange(0, len(sp.leaves)-1).Draw(t, "leaf")]
+		case 1:
+			ch := sp.side[rapid.IntRange(0, len(sp.side)-1).Draw(t, "sideFork")]
+			return ch[rapid.IntRange(0, len(ch)-1).Draw(t, "sideBlock")]
+		}
+		if rapid.IntRange(0, 9).Draw(t, "onH") < 7 {
+			return sp.h
+		}
+		return sp.trunk[rapid.IntRange(0, len(sp.trunk)-1).Draw(t, "trunkBlock")]
+	}
+	var out [][2]int
+	var eq uint64
+	baseVoter := rapid.IntRange(0, 9).Draw(t, "oneVoterOnH") < 7
+	for v := range w {
+		cat := rapid.SampledFrom(cats).Draw(t, "category")
+		if v == 0 && baseVoter {
+			out = append(out, [2]int{v, sp.h})
+			continue
+		}
+		if cat == 3 {
+			continue
+		}
+		first := pickIn(cat)
+		out = append(out, [2]int{v, first})
+		switch rapid.IntRange(0, 11).Draw(t, "extra") {
+		case 0:
+			out = append(out, [2]int{v, first})
+		case 1:
+			second := pickIn(rapid.IntRange(0, 2).Draw(t, "secondCategory"))
+			if second != first && eq+w[v] > f {
+				second = first
+			}
+			if second != first {
+				eq += w[v]
+			}
+			out = append(out, [2]int{v, second})
+		}
+	}
+	return out
+}
+
+// gSplitLabels: shape labels for a set of (member) votes whose GHOST by the definitions is g (-1: none) under base:
+// "three-way-merge-under-one-node": g has no vote of its own, >= 2 vote-nodes above g and >= 1 vote-node on another fork
+// all hang directly under the same lower vote-node (or the base); "...side-hash-below-main": for one such side node the
+// first block of its branch sorts before the first block of the GHOST's branch (the insertion-in-front case of the sorted
+// per-height list in ghostFindMergePoint).
+func gSplitLabels(tr *gTree, base, g int, votedBlocks map[int]bool, lessHash func(a, b int) bool) []string {
+	if g < 0 || base < 0 || votedBlocks[g] || g == base {
+		return nil
+	}
+	voted := func(b int) bool { return b == base || votedBlocks[b] }
+	nodeBelow := func(b int) int {
+		for a := tr.parent[b]; a >= 0; a = tr.parent[a] {
+			if voted(a) {
+				return a
+			}
+		}
+		return -1
+	}
+	a := nodeBelow(g)
+	above, sideBelow, side := 0, false, false
+	for b := 0; b < tr.n(); b++ {
+		if !votedBlocks[b] || b == base || nodeBelow(b) != a {
+			continue
+		}
+		if tr.isAncOrEq(g, b) {
+			above++
+			continue
+		}
+		if tr.isAncOrEq(b, g) {
+			continue
+		}
+		side = true
+		// fork point of b and g, and the two branch heads
+		lca := b
+		for !tr.isAncOrEq(lca, g) {
+			lca = tr.parent[lca]
+		}
+		head := func(x int) int {
+			for tr.parent[x] != lca {
+				x = tr.parent[x]
+			}
+			return x
+		}
+		if lessHash != nil && lessHash(head(b), head(g)) {
+			sideBelow = true
+		}
+	}
+	if above < 2 || !side {
+		return nil
+	}
+	out := []string{"three-way-merge-under-one-node"}
+	if sideBelow {
+		out = append(out, "three-way-merge:side-hash-below-main")
+	}
+	return out
+}
